@@ -17,7 +17,7 @@ def declare(c):
                      '(closing an open episode), any other action changes nothing', floor=10)
     c.rule('C14.R1', 'while disabled no region test succeeds and no episode opens', floor=50)
     c.rule('C14.R2', 'a disable inside an episode sends exactly the exit sequence, in order, through sendCommand; '
-                     'outside an episode nothing is sent', floor=5)
+                     'outside an episode nothing is sent', floor=2)
     c.rule('C14.R3', 'the tool position is tracked identically while disabled', floor=50)
     c.rule('C14.R4', 'streaming to SD or no matching action: returns False without any effect', floor=2)
     c.rule('C14.R5', 'the actions accepted by the configuration are exactly the actions dispatched', floor=1)
@@ -85,6 +85,10 @@ def at_rules(ctx, I):
                 if len(ew) != 1 or ew[0][1] != [False]:
                     ctx.report('C14.R0', where, 'disable: ' + tag, 'the disable action does not clear the enabled flag')
             ctx.instance('C14.R2', tag)
+            if f.pre_enabled is True and f.pre_excluding is None:
+                ctx.report('C14.R2', 'ExcludeRegionState.disableExclusion', 'disable does not look for an open episode',
+                           'a disable action is carried out without consulting whether an episode is open: an open episode '
+                           'would stay open although exclusion is now off')
             if f.pre_enabled is True and f.pre_excluding is True:
                 if f.post_excluding() is not False:
                     ctx.report('C14.R2', where, 'disable leaves the episode open', tag)
